@@ -95,7 +95,7 @@ func gen(seed int64, tier string) Scenario {
 		case x < 17:
 			sc.Steps = append(sc.Steps, Step{Op: "sleep", Ms: 1 + r.Intn(60)})
 		default:
-			sc.Steps = append(sc.Steps, Step{Op: "fault", Fault: []string{"dropresp", "dropresp", "killconn", "retriable", "fatal", "stall", "stall", "moveleader", "refuse"}[r.Intn(9)], N: 1 + r.Intn(2), Ms: 20 + r.Intn(200)})
+			sc.Steps = append(sc.Steps, Step{Op: "fault", Fault: []string{"dropresp", "dropresp", "killconn", "retriable", "fatal", "stall", "stall", "moveleader", "refuse", "stalldropmove"}[r.Intn(10)], N: 1 + r.Intn(2), Ms: 20 + r.Intn(200)})
 		}
 	}
 	// realism constraints on the generated environment:
@@ -105,7 +105,7 @@ func gen(seed int64, tier string) Scenario {
 	//    numbers restart under the same producer id), so nothing is produced to a topic after it was purged.
 	hasDrop := false
 	for _, st := range sc.Steps {
-		hasDrop = hasDrop || st.Fault == "dropresp"
+		hasDrop = hasDrop || st.Fault == "dropresp" || st.Fault == "stalldropmove"
 	}
 	purged := false
 	for i := range sc.Steps {
@@ -345,6 +345,23 @@ func runScenario(t *testing.T, rec *sim.Recorder, sc Scenario) {
 					refuseMu.Unlock()
 				case "stall":
 					chaos.StallNext(int16(kmsg.Produce), n, time.Duration(st.Ms)*time.Millisecond)
+				case "stalldropmove":
+					// the next produce request is handled, its answer held back and then lost; meanwhile the partitions move
+					// to the other broker and the client learns about it
+					d := time.Duration(st.Ms) * time.Millisecond
+					chaos.StallNext(int16(kmsg.Produce), 1, d)
+					chaos.DropNext(int16(kmsg.Produce), 1)
+					go func() {
+						time.Sleep(d / 3)
+						for p := int32(0); p < 2; p++ {
+							to := int32(0)
+							if c.LeaderFor("t", p) == 0 {
+								to = 1
+							}
+							c.MoveTopicPartition("t", p, to)
+						}
+						cl.ForceMetadataRefresh()
+					}()
 				}
 			}
 			synctest.Wait() // quiescence: everything that can run has run
@@ -353,6 +370,13 @@ func runScenario(t *testing.T, rec *sim.Recorder, sc Scenario) {
 		if !sc.CloseEarly {
 			time.Sleep(200 * time.Millisecond)
 			synctest.Wait()
+			// no more faults, brokers healthy: everything accepted must now complete (retry limits, record timeouts and
+			// unknown-topic limits all lie far below this bound)
+			chaos.Disarm()
+			fctx, fcancel := context.WithTimeout(context.Background(), 3*time.Minute)
+			ferr := cl.Flush(fctx)
+			fcancel()
+			rec.Ev("final_flush", "err", errS(ferr), "buffered", cl.BufferedProduceRecords())
 		}
 		rec.Ev("close_call")
 		closed := make(chan struct{})
